@@ -14,6 +14,7 @@ func TestCallbacks(t *testing.T)     { cbProp.Test(t) }
 func TestCallbacksLoss(t *testing.T) { cbLossProp.Test(t) }
 
 func TestForced(t *testing.T)     { forcedProp.Test(t) }
+func TestCBReader(t *testing.T)   { cbReaderProp.Test(t) }
 func TestLoss(t *testing.T)       { lossProp.Test(t) }
 func TestLossAllK(t *testing.T)   { enumerateLossK(t) }
 func TestVerifChild(t *testing.T) { ev.ChildMain(t, lossProp) }
